@@ -108,3 +108,78 @@ Proof. exact T07_rebuild_ok_any_config. Qed.
 Print Assumptions C07_replay_converges_any_config.
 Print Assumptions C07_replay_idempotent_any_config.
 Print Assumptions C07_rebuild_succeeds_any_config.
+
+(* ---------- WITH THE OPERATION-LEVEL CALLS (ADDED; Proofs/T22*.v): histories that mix the filesystem-level calls with batched
+   CArchive / CUpdate / CDelete / CMove calls under [ok_hist] (Proofs/T22Def.v; see Props/C01.v for what it asks).  The forged
+   rename record of C07_forged_record_refuted is outside [ok_hist] (Archive with a caller-supplied STFS.Action record:
+   T22Counter.T22_forged_rename_excluded). *)
+From STFS Require T22Test T22Counter T22Demo.
+From STFS Require Import T22Def T22Hist.
+
+Theorem C07_replay_converges_with_operations : forall c e r j,
+  0 < c_rs c -> c_readonly c = false -> c_csuf c = [] -> c_esuf c = [] ->
+  forallb hb_ok ((CInitialize [slash], e) :: r) = true ->
+  ok_hist c init_sys ((CInitialize [slash], e) :: r) = true ->
+  let t := tp (final c init_sys ((CInitialize [slash], e) :: r)) in
+  let '(p, rr) := replay_into c t (prefix_index c t j) in
+  res_ok rr = true /\ eqb_list eqb_row (visible p) (visible (fst (rebuild c t))) = true.
+Proof. exact T22_replay_converges. Qed.
+
+Theorem C07_replay_idempotent_with_operations : forall c e r j,
+  0 < c_rs c -> c_readonly c = false -> c_csuf c = [] -> c_esuf c = [] ->
+  forallb hb_ok ((CInitialize [slash], e) :: r) = true ->
+  ok_hist c init_sys ((CInitialize [slash], e) :: r) = true ->
+  let t := tp (final c init_sys ((CInitialize [slash], e) :: r)) in
+  let p1 := fst (replay_into c t (prefix_index c t j)) in
+  let '(p2, r2) := replay_into c t p1 in
+  res_ok r2 = true /\ eqb_list eqb_row (visible p2) (visible p1) = true.
+Proof. exact T22_replay_idempotent. Qed.
+
+Theorem C07_rebuild_succeeds_with_operations : forall c e r,
+  0 < c_rs c -> c_readonly c = false -> c_csuf c = [] -> c_esuf c = [] ->
+  forallb hb_ok ((CInitialize [slash], e) :: r) = true ->
+  ok_hist c init_sys ((CInitialize [slash], e) :: r) = true ->
+  res_ok (snd (rebuild c (tp (final c init_sys ((CInitialize [slash], e) :: r))))) = true.
+Proof. exact T22_rebuild_ok. Qed.
+
+Theorem C07_replay_converges_with_operations_any_config : forall c e r j,
+  (0 < c_rs c)%N -> c_readonly c = false ->
+  forallb hb_ok ((CInitialize [slash], e) :: r) = true ->
+  ok_hist c init_sys ((CInitialize [slash], e) :: r) = true ->
+  let t := tp (final c init_sys ((CInitialize [slash], e) :: r)) in
+  let '(p, rr) := replay_into c t (prefix_index c t j) in
+  res_ok rr = true /\ eqb_list eqb_row (visible p) (visible (fst (rebuild c t))) = true.
+Proof. exact T22_replay_converges_any_config. Qed.
+
+Theorem C07_replay_idempotent_with_operations_any_config : forall c e r j,
+  (0 < c_rs c)%N -> c_readonly c = false ->
+  forallb hb_ok ((CInitialize [slash], e) :: r) = true ->
+  ok_hist c init_sys ((CInitialize [slash], e) :: r) = true ->
+  let t := tp (final c init_sys ((CInitialize [slash], e) :: r)) in
+  let p1 := fst (replay_into c t (prefix_index c t j)) in
+  let '(p2, r2) := replay_into c t p1 in
+  res_ok r2 = true /\ eqb_list eqb_row (visible p2) (visible p1) = true.
+Proof. exact T22_replay_idempotent_any_config. Qed.
+
+Theorem C07_rebuild_succeeds_with_operations_any_config : forall c e r,
+  (0 < c_rs c)%N -> c_readonly c = false ->
+  forallb hb_ok ((CInitialize [slash], e) :: r) = true ->
+  ok_hist c init_sys ((CInitialize [slash], e) :: r) = true ->
+  res_ok (snd (rebuild c (tp (final c init_sys ((CInitialize [slash], e) :: r))))) = true.
+Proof. exact T22_rebuild_ok_any_config. Qed.
+
+(* the forged record that refutes the full statement is excluded by [ok_hist]; the demo history of Proofs/T22Demo.v is inside *)
+Theorem C07_with_operations_boundary :
+  ok_hist T07Counter.cf init_sys T07Counter.h_bad = false /\
+  forallb hb_ok T22Test.hist1 = true /\ ok_hist T22Test.cf init_sys T22Test.hist1 = true /\
+  T22Test.replay_all T22Test.cf T22Test.hist1 = true.
+Proof.
+  split; [exact T22Counter.T22_forged_rename_excluded|]. split; [exact (proj1 T22Demo.T22_demo_hyps)|].
+  split; [exact (proj1 (proj2 T22Demo.T22_demo_hyps))|exact (proj1 T22Demo.T22_demo_replay_eval)].
+Qed.
+
+Print Assumptions C07_replay_converges_with_operations.
+Print Assumptions C07_replay_idempotent_with_operations.
+Print Assumptions C07_rebuild_succeeds_with_operations.
+Print Assumptions C07_replay_converges_with_operations_any_config.
+Print Assumptions C07_replay_idempotent_with_operations_any_config.
